@@ -15,11 +15,15 @@ Model driver for C03. Line protocol (single spaces between fields; see harness/p
                error at the end, end reported together with the last data / separately, Close fails
                / succeeds; chunk = largest piece one Read delivers
   filetokens:= off ':' len (',' …)*      the file "f" of the stream ". <all locators> off:len:f …"
+             | stream (';' stream)*      stream := dir '=' b ('.' b)* '=' off ':' len ':' name (',' …)*
+                                         dir = "." or "./x/y"; b = block indices of that stream
   ops       := op (',' op)*
      G<b>r | G<b>w | G<b>c<m>   kc.Get then ioutil.ReadAll / WriteTo / io.ReadFull(m) ; then Close
      A<b>                       kc.Ask
      R<b>:<off>:<len>           kc.ReadAt (shared BlockCache{MaxBlocks}), then a synchronous Sweep
-     r<len> | k<off>            File.Read / File.Seek(off, SeekStart), Sweep after each Read
+     r<len> | k<off>            File.Read / File.Seek(off, SeekStart) on handle 0, Sweep after each Read
+     o<path>                    (new manifest form) kc.CollectionFileReader(manifest, path): next handle
+     r<h>:<len> | k<h>:<off>    File.Read / File.Seek on handle h
   every op result of a session is followed by '@' and the number of HTTP requests made so far
   schedule  := ('s'<b> | 'f'<b>) (',' …)*   start a reader of block b (ReadAt whole block) /
                release the blocked request of the fetch of block b; afterwards everything is released
@@ -110,8 +114,10 @@ structure Sess where
   slots : List Slot := []
   clock : Nat := 0
   log : List (Nat × Nat) := []
-  segs : Option (List Seg) := none
-  ptr : Ptr := {}
+  /-- the files of the collection (`none`: the manifest is rejected, nothing can be opened) -/
+  files : Option (List (String × List Seg)) := none
+  /-- open handles: segments of the file and the handle's pointer; `none` = the open failed -/
+  handles : Array (Option (List Seg × Ptr)) := #[]
 
 def showLog (l : List (Nat × Nat)) : String :=
   if l.isEmpty then "log=-" else "log=" ++ ",".intercalate (l.map (fun p => s!"{p.1}.{p.2}"))
@@ -190,32 +196,56 @@ def opG (st : Sess) (b : Nat) (mode : String) : Option (String × Sess) :=
 
 def cacheBackend (st : Sess) (b : Nat) : Option (Entry × Sess) := sessCacheGet st b
 
-/-- File.Read(p[:plen]) -/
-def opFileRead (st : Sess) (plen : Nat) : Option (String × Sess) :=
-  match st.segs with
+def setPtr (st : Sess) (h : Nat) (segs : List Seg) (p : Ptr) : Sess :=
+  { st with handles := st.handles.set! h (some (segs, p)) }
+
+/-- File.Read(p[:plen]) on handle h -/
+def opFileRead (st : Sess) (h plen : Nat) : Option (String × Sess) :=
+  match st.handles[h]? with
   | none => some ("f:noopen", st)
-  | some segs =>
+  | some none => some ("f:noopen", st)
+  | some (some (segs, ptr)) =>
     -- at most one segment is read; run the cache Get lazily for that segment
-    match seek segs st.ptr with
+    match seek segs ptr with
     | none => some ("f:panic", st)
     | some p =>
       match segs[p.idx]? with
       | none =>
-        some ("f::eof", { st with ptr := p })
+        some ("f::eof", setPtr st h segs p)
       | some s =>
         -- does storedSegment.ReadAt call the backend at all?
         if s.length < p.segOff then
-          match fileRead (fun _ _ _ => ([], some .eof)) segs st.ptr plen with
-          | some (d, e, p') => some (s!"f:{hexB d}:{optErr e}", { st with ptr := p' })
+          match fileRead (fun _ _ _ => ([], some .eof)) segs ptr plen with
+          | some (d, e, p') => some (s!"f:{hexB d}:{optErr e}", setPtr st h segs p')
           | none => some ("f:panic", st)
         else
           match sessCacheGet st s.blk with
           | none => none
           | some (entry, st') =>
             let segRead := fun (se : Seg) (pl off : Nat) => segReadAt (fun l o => readAtEntry entry o l) se pl off
-            match fileRead segRead segs st.ptr plen with
-            | some (d, e, p') => some (s!"f:{hexB d}:{optErr e}", doSweep { st' with ptr := p' })
+            match fileRead segRead segs ptr plen with
+            | some (d, e, p') => some (s!"f:{hexB d}:{optErr e}", doSweep (setPtr st' h segs p'))
             | none => some ("f:panic", st')
+
+def opFileSeek (st : Sess) (h off : Nat) : Option (String × Sess) :=
+  match st.handles[h]? with
+  | some (some (segs, ptr)) => some (s!"k:{off}", setPtr st h segs (fileSeek ptr off))
+  | _ => some ("k:noopen", st)
+
+def opOpen (st : Sess) (path : String) : Option (String × Sess) :=
+  match st.files with
+  | none => some ("o:noopen", { st with handles := st.handles.push none })
+  | some files =>
+    match files.find? (fun f => f.1 == path) with
+    | none => some ("o:noent", { st with handles := st.handles.push none })
+    | some f => some ("o:ok", { st with handles := st.handles.push (some (f.2, {})) })
+
+def parseOp2 (s : String) : Option (Nat × Nat) :=
+  match s.splitOn ":" with
+  | [a, b] => match parseNat? a, parseNat? b with
+    | some x, some y => some (x, y)
+    | _, _ => none
+  | _ => none
 
 def runOp (st : Sess) (op : String) : Option (String × Sess) :=
   if op.startsWith "G" then
@@ -244,16 +274,26 @@ def runOp (st : Sess) (op : String) : Option (String × Sess) :=
       | none => none
     | none => none
   else if op.startsWith "r" then
-    match parseNat? (op.drop 1).toString with
-    | some n => opFileRead st n
-    | none => none
+    let a := (op.drop 1).toString
+    if a.contains ':' then
+      match parseOp2 a with
+      | some (h, n) => opFileRead st h n
+      | none => none
+    else match parseNat? a with
+      | some n => opFileRead st 0 n
+      | none => none
   else if op.startsWith "k" then
-    match parseNat? (op.drop 1).toString with
-    | some off =>
-      match st.segs with
-      | none => some ("k:noopen", st)
-      | some _ => some (s!"k:{off}", { st with ptr := fileSeek st.ptr off })
-    | none => none
+    let a := (op.drop 1).toString
+    if a.contains ':' then
+      match parseOp2 a with
+      | some (h, off) => opFileSeek st h off
+      | none => none
+    else match parseNat? a with
+      | some off => opFileSeek st 0 off
+      | none => none
+  else if op.startsWith "o" then
+    let path := (op.drop 1).toString
+    if path.isEmpty then none else opOpen st path
   else none
 
 def runOps (st : Sess) : List String → List String → Option (List String × Sess)
@@ -263,24 +303,58 @@ def runOps (st : Sess) : List String → List String → Option (List String × 
     | some (r, st') => runOps st' rest (s!"{r}@{st'.log.length}" :: acc)
     | none => none
 
-/-- loadManifest for the stream ". <locators> <tokens for f>": needs a 32-bit size hint on every
-locator. -/
-def openFile (blks : Array Blk) (toks : String) : Option (Option (List Seg)) :=
-  if toks == "-" then some none else
-  let ts := (toks.splitOn ",").mapM (fun t => match t.splitOn ":" with
-    | [a, b] => match parseNat? a, parseNat? b with
-      | some x, some y => some (x, y)
-      | _, _ => none
-    | _ => none)
-  match ts with
-  | none => none
-  | some ts =>
-    let sizes := blks.toList.mapM (fun b => (hintField b.loc).bind (parseNonNeg 32))
-    match sizes with
-    | none => some none          -- "bad locator": the collection cannot be opened
-    | some szs =>
-      let blocks := (List.range szs.length).zip szs
-      some (loadTokens blocks ts 0 blocks [])
+def parseTok2 (t : String) : Option (Nat × Nat) :=
+  match t.splitOn ":" with
+  | [a, b] => match parseNat? a, parseNat? b with
+    | some x, some y => some (x, y)
+    | _, _ => none
+  | _ => none
+
+def parseTok3 (dir : String) (t : String) : Option (Nat × Nat × String) :=
+  match t.splitOn ":" with
+  | [a, b, name] => match parseNat? a, parseNat? b with
+    | some x, some y => if name.isEmpty then none else some (x, y, if dir == "." then name else (dir.drop 2).toString ++ "/" ++ name)
+    | _, _ => none
+  | _ => none
+
+/-- one stream `dir=b.b.b=off:len:name,…` → (blocks with sizes, tokens); outer `none` = bad-op, inner
+`none` = a locator without a usable size hint ("bad locator") -/
+def parseStream (blks : Array Blk) (s : String) : Option (Option (List (Nat × Nat) × List (Nat × Nat × String))) :=
+  match s.splitOn "=" with
+  | [dir, bs, ts] =>
+    if !(dir == "." || dir.startsWith "./") then none else
+    match (bs.splitOn ".").mapM parseNat?, (ts.splitOn ",").mapM (parseTok3 dir) with
+    | some idxs, some toks =>
+      if idxs.any (fun i => i ≥ blks.size) then none else
+      let sized := idxs.mapM (fun i => match blks[i]? with
+        | some b => ((hintField b.loc).bind (parseNonNeg 32)).map (fun sz => (i, sz))
+        | none => none)
+      some (sized.map (fun bl => (bl, toks)))
+    | _, _ => none
+  | _ => none
+
+/-- The file table of the collection. Old form `off:len,…`: the single stream ". <all locators>" with
+the file f; new form: streams separated by ';'. Result: `none` = bad-op; `some none` = manifest
+rejected; `some (some files, autoOpen)`. -/
+def openFiles (blks : Array Blk) (toks : String) : Option (Option (List (String × List Seg)) × Bool) :=
+  if toks == "-" then some (none, false) else
+  if toks.contains '=' then
+    match (toks.splitOn ";").mapM (parseStream blks) with
+    | none => none
+    | some streams =>
+      match streams.mapM id with
+      | none => some (none, false)
+      | some ss => some (loadManifestN ss [], false)
+  else
+    match (toks.splitOn ",").mapM parseTok2 with
+    | none => none
+    | some ts =>
+      let sizes := blks.toList.mapM (fun b => (hintField b.loc).bind (parseNonNeg 32))
+      match sizes with
+      | none => some (none, true)          -- "bad locator": the collection cannot be opened
+      | some szs =>
+        let blocks := (List.range szs.length).zip szs
+        some ((loadTokens blocks ts 0 blocks []).map (fun segs => [("f", segs)]), true)
 
 def countUuids (s : String) : Option Nat :=
   if s == "-" then some 0 else
@@ -293,10 +367,16 @@ def stepSess (retries maxb nsvc blocks toks ops : String) : String :=
     match parseBlocks k blocks with
     | none => "bad-op"
     | some blks =>
-      match openFile blks toks with
+      match openFiles blks toks with
       | none => "bad-op"
-      | some segs =>
-        let st : Sess := { blks := blks, tries := r + 1, maxBlocks := mb, segs := segs }
+      | some (files, auto) =>
+        let st0 : Sess := { blks := blks, tries := r + 1, maxBlocks := mb, files := files }
+        -- the old form opens the file f once at the start (handle 0)
+        let st : Sess := if auto then
+            { st0 with handles := #[match files with
+              | some fs => (fs.find? (fun f => f.1 == "f")).map (fun f => (f.2, ({} : Ptr)))
+              | none => none] }
+          else st0
         match runOps st (if ops == "-" then [] else ops.splitOn ",") [] with
         | some (rs, st') => (if rs.isEmpty then "-" else ",".intercalate rs) ++ " " ++ showLog st'.log
         | none => "bad-op"
